@@ -229,7 +229,44 @@ fn build(rng: &mut Rng) -> Plan {
     if use_var {
         features.push("mutable_scoped_definitions");
     }
-    Plan { file: GFile { items }, features, strict_only: use_var }
+    // strict mode only (stanza order is execution order there): a nearer definition that arrives
+    // after a first round of inherited reads, followed by a second round of reads; with `var`
+    // also an assignment to the outer definition between the two rounds
+    let mut strict_only = use_var;
+    if !inherited.is_empty() && rng.chance(1, 4) {
+        let name = *rng.pick(&inherited);
+        if defs.contains(&(0, name)) {
+            let k = 1 + rng.below(3);
+            if !defs.contains(&(k, name)) {
+                let (_, q, cap) = KINDS[k];
+                let value = GExpr::List(vec![GExpr::str("late"), GExpr::call("start-row", vec![GExpr::cap(cap)])]);
+                let st = if use_var { StmtKind::Var(GVar::s(GExpr::cap(cap), name), value) } else { StmtKind::Let(GVar::s(GExpr::cap(cap), name), value) };
+                items.push(Item::Stanza(GStanza { query: q.into(), pool: None, stmts: vec![stmt(st)], loc: Loc::default() }));
+                if use_var && rng.chance(1, 2) {
+                    items.push(Item::Stanza(GStanza { query: KINDS[0].1.into(), pool: None, stmts: vec![stmt(StmtKind::Set(GVar::s(GExpr::cap(KINDS[0].2), name), GExpr::str("reassigned")))], loc: Loc::default() }));
+                    features.push("outer_definition_reassigned_between_reads");
+                }
+                for (ri, q2) in ["(identifier) @x", "(call) @x", "(expression_statement) @x"].iter().enumerate() {
+                    if ri > 0 && rng.chance(1, 2) {
+                        continue;
+                    }
+                    let node = format!("late_r{}", ri);
+                    items.push(Item::Stanza(GStanza {
+                        query: (*q2).into(),
+                        pool: None,
+                        stmts: vec![
+                            stmt(StmtKind::Node(GVar::u(&node))),
+                            stmt(StmtKind::AttrNode(GExpr::var(&node), vec![GAttr { name: "late_at".into(), value: Some(node_value("x", "late reader")) }, GAttr { name: "late_read".into(), value: Some(GExpr::scoped(GExpr::cap("x"), name)) }])),
+                        ],
+                        loc: Loc::default(),
+                    }));
+                }
+                features.push("nearer_definition_after_first_reads");
+                strict_only = true;
+            }
+        }
+    }
+    Plan { file: GFile { items }, features, strict_only }
 }
 
 const SOURCES: &[&str] = &[
